@@ -244,6 +244,20 @@ def oracle_layer(ctx, lk, conn, entries, options):
                 if [tuple(r) for r in rows2] != [tuple(r) for r in rows if keep(r)]:
                     ctx.record_violation('filter-changes-clauses', '%s: %d rows vs %d filtered rows of %s' % (
                         q2, len(rows2), len([r for r in rows if keep(r)]), q), payload={'query': q2})
+        # a nested SELECT anywhere in the statement does not disturb the clauses: a condition that holds for every row
+        if frm and not ctx.stop():
+            for cond in ('1 IN (SELECT 1 FROM #accounts)', "account NOT IN (SELECT account FROM #accounts WHERE account = 'nothing:at:all')"
+                         " OR account IS NOT NULL"):
+                q3 = 'SELECT %s FROM %s WHERE %s' % (cols, from_text(o, c, clear, None), cond)
+                try:
+                    rows3 = [tuple(r) for r in conn.execute(q3).fetchall()]
+                except Exception as exc:  # noqa: BLE001
+                    ctx.record_violation('nested-select-raises-%s' % type(exc).__name__, '%s: %r' % (q3, exc), payload={'query': q3})
+                    continue
+                ctx.count('oracle:nested-select')
+                if rows3 != [tuple(r) for r in rows]:
+                    ctx.record_violation('nested-select-disturbs-clauses', '%s: %d rows, %d without the condition' % (q3, len(rows3), len(rows)),
+                                         payload={'query': q3})
         # the four statements prepare the same entries
         if frm:
             want_e = [id(x) if x in entries else repr(x)[:200] for x in prepared(conn, 'SELECT account FROM ' + frm)]
